@@ -131,7 +131,7 @@ def run(rep):
     rep.assumptions = ["allocator exhaustion (abort on a multi-gigabyte allocation, address space capped at 6 GiB) and the "
                        "time-out of a single request are recorded separately and are not counted as violations (out of scope per DESIGN.md C01)",
                        "native-stack overflow of the recursive parser/analyzer on deeply nested input is a known finding (c01:native-stack)"]
-    vlib.prelude(rep, cli=True)
+    vlib.prelude(rep, cli=True, extra_modules=['RsjProps.C04Eval'])
     rng = rep.rng
     quick = rep.tier == 'quick'
     # ---- corpus
